@@ -163,6 +163,9 @@ func valOf(typ string, tok, poff int) pq.Val {
 	if typ == "string" && tok == 997 {
 		return pq.Val{Bytes: []byte(embeddedFile)}
 	}
+	if tl, ok := tailLike[tok]; ok && typ == "string" {
+		return pq.Val{Bytes: []byte(tl)}
+	}
 	b, s := bitsOf(poolVal(typ, tok, poff))
 	return pq.Val{Bits: b, Bytes: s}
 }
